@@ -372,6 +372,10 @@ def known_findings():
 
 # --------------------------------------------------------------------------- check context
 
+# invariants that are violated on purpose: the "full property" runs that exhibit a named deviation of the unchanged tree
+EXPECTED_MODEL_VIOLATIONS = {"ExactlyOnceFull", "CompleteFull", "Inv2", "NoLoss", "ScheduleFull", "SomeComplete"}
+
+
 class Ctx:
     def __init__(self, pid, tier, seed):
         self.pid = pid
@@ -395,6 +399,7 @@ class Ctx:
         self.notes = []
         self.extra = {}
         self.kf = known_findings()
+        self.unhandled_model = []
         self.workdir = os.path.join(CACHE, "run", "%s-%d" % (pid, os.getpid()))
         os.makedirs(self.workdir, exist_ok=True)
 
@@ -412,6 +417,10 @@ class Ctx:
             self.exhaustive = False
         log("%s: %d generated, %d distinct, %.1fs%s" % (what, res.generated, res.distinct, res.wall,
                                                         (" VIOLATED " + res.violation) if res.violation else ""))
+        # a violated invariant in a run that is not one of the deliberate "full property" runs must never go unnoticed
+        # (a generation run would just stop early and yield fewer behaviours)
+        if res.violation and res.violation not in EXPECTED_MODEL_VIOLATIONS:
+            self.unhandled_model.append((what, res.violation, counterexample(res)[-1500:]))
 
     def sample(self, s):
         if len(self.samples) < 4:
@@ -429,6 +438,9 @@ class Ctx:
         self.violations.append((key, desc, payload))
 
     def finish(self):
+        for what, inv, cex in self.unhandled_model:
+            if not any(inv in key or inv in desc for key, desc, _ in self.violations):
+                self.violations.append(("model:" + inv, "%s: TLC reports invariant %s violated" % (what, inv), {"tlc": cex}))
         wall = time.time() - self.t0
         os.makedirs(os.path.join(ROOT, "evidence", "replays"), exist_ok=True)
         for key, desc in self.known_hit.items():
